@@ -108,6 +108,15 @@ def handleFlow : List String → String
       if name.endsWith "cfi_allocatable" && !o.alloc then "ok f=unallocated" else "ok f=" ++ encBuf o.f
     | some .oob => "oob"
     | none => "bad-op"
+  | ["oflow", "string_scalar_result_buf_allocatable", s] =>
+    -- C entry (new std::string ; ShroudStrToArray), then allocate + the helper body in its generated order, owned
+    let e := Gen.c_string_scalar_result_buf_allocatable
+    match (call (.strResult (decBuf s)) (init e false false [] 1 0)).bind fun st => (run e.pre st).bind (run e.post) with
+    | .ok st =>
+      match copyStringRun Gen.copyStringSteps st.ctxp true st.ctxlen (List.replicate st.ctxlen UNINIT) st.ctxlen with
+      | .ok (b, 1) => "ok f=" ++ encBuf b
+      | _ => "oob"
+    | .oob => "oob"
   | ["vflow", name, t, size, len, outs] =>
     let v : List (List Nat) := if outs == "~" then [] else (outs.splitOn ";").map decBuf
     let r : Option (Entry × Lib) :=
@@ -121,6 +130,11 @@ def handleFlow : List String → String
     | some (e, l) => showFlow (flowArr e false false (decBuf t) size.toNat! len.toNat! l)
     | none => "bad-op"
   | _ => "bad-op"
+
+/-- the helper must leave the variable AND release exactly once -/
+def showRun : Res (Buf × Nat) → String
+  | .ok (b, 1) => "ok " ++ encBuf b
+  | _ => "oob"
 
 def handle : List String → String
   | ["lentrim", src, nsrc] =>
@@ -147,12 +161,18 @@ def handle : List String → String
     | (none, n) => "ok null " ++ toString n
     | (some _, n) => "ok ptr " ++ toString n
   | ["copystr", cxx, elemLen, cvar, cvarLen] =>
-    showBuf (copyString (decPtr cxx) elemLen.toNat! (decBuf cvar) cvarLen.toNat!)
+    -- library-owned text (destructor index 0): the release is a no-op
+    showRun (copyStringRun Shroud.StrStmts.Gen.copyStringSteps (decPtr cxx) false elemLen.toNat! (decBuf cvar) cvarLen.toNat!)
+  | ["copystro", cxx, elemLen, cvar, cvarLen] =>
+    -- text owned by the wrapper: the release frees the storage `cxx` lives in
+    showRun (copyStringRun Shroud.StrStmts.Gen.copyStringSteps (decPtr cxx) true elemLen.toNat! (decBuf cvar) cvarLen.toNat!)
   | ["allocstring", s] =>
-    showBuf (allocatableResult (strToArray (decBuf s)))
+    -- std::string returned by value: `new std::string`, owned by the capsule
+    let ctx := strToArray (decBuf s)
+    showRun (copyStringRun Shroud.StrStmts.Gen.copyStringSteps ctx.1 true ctx.2 (List.replicate ctx.2 UNINIT) ctx.2)
   | ["allocchar", cxx] =>
     match charResultCtx (decPtr cxx) with
-    | .ok ctx => showBuf (allocatableResult ctx)
+    | .ok ctx => showRun (copyStringRun Shroud.StrStmts.Gen.copyStringSteps ctx.1 false ctx.2 (List.replicate ctx.2 UNINIT) ctx.2)
     | .oob => "oob"
   | ["charscalar", dest, len, c] =>
     showBuf (charScalarResult (decBuf dest) len.toNat! c.toNat!)
